@@ -42,7 +42,10 @@ def suite(wt):
     b = json.load(open("/root/.vp/BASELINE.json"))
     x = tempfile.mktemp(suffix=".xml")
     cmd = b["cmd"].replace("<file>", x).replace("cd /repo", "cd " + wt)
-    subprocess.run(cmd, shell=True, stdout=subprocess.DEVNULL, stderr=subprocess.DEVNULL)
+    # (the suite has a test that sends SIGINT to itself: a background shell starts its children with SIGINT ignored, so the default disposition is restored here)
+    import signal
+
+    subprocess.run(cmd, shell=True, stdout=subprocess.DEVNULL, stderr=subprocess.DEVNULL, preexec_fn=lambda: signal.signal(signal.SIGINT, signal.SIG_DFL))
     passed = set()
     for tc in ET.parse(x).getroot().iter("testcase"):
         if not any(c.tag in ("failure", "error", "skipped") for c in tc):
